@@ -471,6 +471,8 @@ type Contract struct {
 	ModNothing bool
 	FrameTag string
 	Updates  []GhostUpdate // ghost assignments executed at every return (model fields only)
+	Grants   []Clause      // interface methods: history tokens assumed at call sites, not checked on implementations
+	Forbids  []Clause      // interface methods: functions no implementation may reach (Src = name patterns)
 	Iterator bool          // the function calls its callback argument zero or more times (loop at the call site)
 	Count    *SExpr        // number of yields when the callback never stops the iteration
 }
@@ -572,7 +574,7 @@ func ParseContractFile(path, pkg string) (*ContractFile, error) {
 		body := strings.TrimPrefix(t, "//@")
 		lines = append(lines, ln{body, i + 1})
 	}
-	keywords := []string{"footprint", "iterator", "count", "update", "func", "assume", "interface", "method", "requires", "ensures", "modifies", "invariant", "safety", "ghost", "model", "repr", "axiom", "implements", "lemma", "yields", "property", "noinline", "const", "expands", "inline"}
+	keywords := []string{"grants", "forbids", "footprint", "iterator", "count", "update", "func", "assume", "interface", "method", "requires", "ensures", "modifies", "invariant", "safety", "ghost", "model", "repr", "axiom", "implements", "lemma", "yields", "property", "noinline", "const", "expands", "inline"}
 	isKw := func(s string) bool {
 		f := strings.Fields(s)
 		if len(f) == 0 {
@@ -695,6 +697,22 @@ func ParseContractFile(path, pkg string) (*ContractFile, error) {
 				return nil, fail(l, err)
 			}
 			cur.Invs[key] = append(cur.Invs[key], Clause{Tag: tag, Expr: e, Src: es})
+		case "grants":
+			if cur == nil {
+				return nil, fail(l, fmt.Errorf("grants outside func"))
+			}
+			es, tag := splitTag(rest)
+			e, err := ParseExpr(es)
+			if err != nil {
+				return nil, fail(l, err)
+			}
+			cur.Grants = append(cur.Grants, Clause{Tag: tag, Expr: e, Src: es})
+		case "forbids":
+			if cur == nil {
+				return nil, fail(l, fmt.Errorf("forbids outside func"))
+			}
+			es, tag := splitTag(rest)
+			cur.Forbids = append(cur.Forbids, Clause{Tag: tag, Src: es})
 		case "iterator":
 			if cur != nil {
 				cur.Iterator = true
